@@ -341,7 +341,7 @@ def run_select(case):
     nt = rng.choice(zoo.NOISE_TYPES)
     sde = zoo.NeuralSDE(2, 2, nt, st, seed=rng.randrange(10 ** 6), gscale=0.5)
     named = list(sde.named_parameters())
-    scenario = rng.choice(["subset", "frozen", "default", "y0_no_grad", "empty"])
+    scenario = rng.choice(["subset", "frozen", "default", "y0_no_grad", "empty", "empty_list", "renamed"])
     y0 = torch.randn(2, 2, generator=torch.Generator().manual_seed(case["rseed"]))
     kw = {}
     expect = set()
@@ -361,10 +361,16 @@ def run_select(case):
         y0.requires_grad_(True)
     elif scenario == "y0_no_grad":
         expect = {n for n, _ in named}
-    else:
-        kw["adjoint_params"] = ()
+    elif scenario == "renamed":
+        # drift / diffusion handed over under other names: the module's parameters are still the default adjoint parameters
+        expect = {n for n, _ in named}
         y0.requires_grad_(True)
-    ys = torchsde.sdeint_adjoint(sde, y0, [0.0, 0.3], dt=0.1, method="euler" if st == "ito" else "midpoint", **kw)
+        kw["names"] = {"drift": "mu", "diffusion": "sigma"}
+    else:
+        kw["adjoint_params"] = () if scenario == "empty" else []
+        y0.requires_grad_(True)
+    obj = zoo.Renamed(sde) if scenario == "renamed" else sde
+    ys = torchsde.sdeint_adjoint(obj, y0, [0.0, 0.3], dt=0.1, method="euler" if st == "ito" else "midpoint", **kw)
     ys.sum().backward()
     got = {n for n, p in named if p.grad is not None}
     cnt["selectivity_cases"] = 1
